@@ -734,6 +734,9 @@ def run(ctx):
     no = r_options(ctx)
     common.r_argbind(ctx, {common.solve_root(ctx.repo).name}, why=" (an option that does not reach the routine that validates it is neither honoured nor rejected)")
     wrappers.r_constraint_kinds(ctx)
+    from . import c08
+    c08.r_step_option_rejection(ctx)   # the options of the primitive steps are options too: refused whatever the numeric arguments
+    wrappers.r_mainvars(ctx)         # a solve that finds nothing leaves nothing behind in the wrapper: what the solver gave (or None) is stored at every solve, so a later stage cannot answer with the numbers of an earlier one
     ctx.floor("except clauses", ne, 2)
     ctx.floor("accessors", na, 6)
     ctx.floor("string-option dispatches", no, 4)
